@@ -771,6 +771,16 @@ fn validate(cx: &mut Ctx, a: &Bytecode, ta: &Tables, ea: usize, b: &Bytecode, tb
     if !r2.starts_with("ok") {
         return format!("model-parse-B:{r2}");
     }
+    // the canonical-tuple tables are the ones the model of `compute_canonical_tuples` computes
+    if r1.contains("canon-computed=false") || r2.contains("canon-computed=false") {
+        return "reject canon-table differs from the model of compute_canonical_tuples (C10.canon_of_name_label_preservation hypothesis)".to_string();
+    }
+    if r1.contains("canon-computed=true") {
+        cx.ev.hit("validated:canon-table-is-computed");
+    }
+    if r2.contains("canon-computed=true") {
+        cx.ev.hit("validated:canon-table-is-computed");
+    }
     let t0 = std::time::Instant::now();
     let ans = cx.model.ask(&format!("(check-renaming {ea} {eb})"));
     let dt = t0.elapsed().as_millis();
@@ -1200,7 +1210,8 @@ fn main() {
                a runtime error and the validator was consulted; distinct by source text + path"
         .into();
     let b = qverif::run::builtins();
-    let model = Model::spawn(opts.model.as_ref().expect("--model"));
+    let mut model = Model::spawn(opts.model.as_ref().expect("--model"));
+    let _ = model.ask(&format!("(canon-limit {})", opts.tier.pick(48, 1_000_000)));
     let mut cx = Ctx { b: &b, model, ev, max_rounds: 4000, pool: vec![] };
     let no_modules: HashMap<Vec<String>, String> = HashMap::new();
 
